@@ -591,3 +591,661 @@ def rule_LAYER(ctx, floor=3):
     _, pg = check_layers(ast.parse(_LAYER_GOOD).body[0], visit)
     r.positive_control([p[0] for p in pb] == ['weak:options'] and not pg, 'options merged with setdefault / dict-display form of the correct layering')
     return r
+
+
+# ====================================================================================================== fourth round
+# C41-BOOLTAB   decision table of the boolean branch of Options.parse_directive_value over the partition of strings its own comparisons induce
+#               (exact 'True' / 'False', every accepted word in lower / UPPER / Title case, the empty string, a word it does not know) x relaxed_bool.
+# C41-SCOPE     decision table of InterpretCompilerDirectives.check_directive_scope over Options.directive_scopes x the scope vocabulary.
+# C41-CONTENTS  directives that apply to the decorated object only (Options.immediate_decorator_directives) never reach the mapping for its contents.
+# C41-INHERIT   Options.copy_inherited_directives returns a private copy of the outer mapping overridden by the new directives.
+# C41-HEADER    every parsed `# cython:` comment line ends up in the mapping p_compiler_directive_comments returns.
+# C41-DECORDER  the decorator written first wins: iteration order of the decorator stack agrees with the merge policy.
+# C41-CTX       context managers that rebind an attribute of their argument (`obj.directives`) put the saved value back after the yield.
+from .pC07 import Eval, Obj, Unsupported, RepoFn, Sym, Method, ModRef
+from ..engine.pyindex import walk_no_nested as _wnn
+
+
+class Raised(Exception):
+    def __init__(self, cls):
+        Exception.__init__(self, cls)
+        self.cls = cls
+
+
+class DirEval(Eval):
+    """Eval + the few constructs of the directive plumbing: `raise C(...)` (recorded, not modelled further), str.lower()/strip(), dict.get(), calling an opaque class
+    (gives an opaque instance), `'...' % args` on plain strings."""
+
+    def stmt(self, s, env, frame):
+        if isinstance(s, ast.Raise) and s.exc is not None:
+            e = s.exc
+            nm = e.func if isinstance(e, ast.Call) else e
+            raise Raised(_u(nm))
+        return Eval.stmt(self, s, env, frame)
+
+    def getattr(self, o, name, frame):
+        if isinstance(o, str) and name in ('lower', 'upper', 'strip', 'startswith', 'endswith'):
+            return getattr(o, name)
+        if isinstance(o, dict) and name == 'get':
+            return o.get
+        return Eval.getattr(self, o, name, frame)
+
+    def call(self, f, args, kwargs=None):
+        if isinstance(f, Sym):
+            return Obj('instance of %s' % f.name, flag_default=False)
+        return Eval.call(self, f, args, kwargs)
+
+    def expr(self, e, env, frame):
+        if isinstance(e, ast.Dict) and all(k is not None for k in e.keys):
+            return {self.expr(k, env, frame): self.expr(v, env, frame) for k, v in zip(e.keys, e.values)}
+        if isinstance(e, ast.BinOp) and isinstance(e.op, ast.Mod):
+            left = self.expr(e.left, env, frame)
+            right = self.expr(e.right, env, frame)
+            if isinstance(left, str):
+                return '<formatted message>'
+        return Eval.expr(self, e, env, frame)
+
+
+# ------------------------------------------------------------------------------------------------ C41-BOOLTAB
+def bool_words(fn):
+    """string constants the function compares its value with (candidates for the partition)"""
+    out = set()
+    for n in ast.walk(fn):
+        if isinstance(n, ast.Dict):
+            for k in n.keys:
+                if isinstance(k, ast.Constant) and isinstance(k.value, str):
+                    out.add(k.value)
+        if isinstance(n, ast.Compare):
+            for c in [n.left] + list(n.comparators):
+                if isinstance(c, ast.Constant) and isinstance(c.value, str):
+                    out.add(c.value)
+                elif isinstance(c, (ast.Tuple, ast.List, ast.Set)):
+                    for x in c.elts:
+                        if isinstance(x, ast.Constant) and isinstance(x.value, str):
+                            out.add(x.value)
+    return out
+
+
+def bool_table(ix, module, fn):
+    """-> {(token, relaxed): True | False | 'ValueError' | 'other:<what>'}"""
+    words = {w for w in bool_words(fn) if w and w.isalpha() and len(w) <= 8}
+    tokens = set()
+    for w in words | {'true', 'false'}:
+        tokens |= {w, w.lower(), w.upper(), w.title()}
+    tokens |= {'', 'maybe', '2'}
+    out = {}
+    for tok in sorted(tokens):
+        for relaxed in (False, True):
+            ev = DirEval(ix, overrides={('Options', 'directive_types'): {'boundscheck': bool}})
+            try:
+                res = ev.call(RepoFn(module, fn), ['boundscheck', tok], {'relaxed_bool': relaxed})
+            except Raised as r:
+                res = 'ValueError' if r.cls == 'ValueError' else 'other:raises %s' % r.cls
+            except Unsupported as e:
+                raise AnalysisError('parse_directive_value cannot be evaluated for %r, relaxed_bool=%s: %s' % (tok, relaxed, e))
+            if res is not True and res is not False and not isinstance(res, str):
+                res = 'other:returns %r' % (res,)
+            out[(tok, relaxed)] = res
+    return out
+
+
+def booltab_problems(tab):
+    """-> [(key, message)]"""
+    problems = []
+    for (tok, relaxed), res in sorted(tab.items()):
+        mode = 'relaxed' if relaxed else 'strict'
+        if isinstance(res, str) and res.startswith('other:'):
+            problems.append(('%s:%r' % (mode, tok), 'for the value %r (%s mode) the parser %s: a directive string is neither parsed nor rejected with ValueError' % (tok, mode, res[6:])))
+            continue
+        # the documented spellings
+        if tok in ('True', 'False') and res is not (tok == 'True'):
+            problems.append(('%s:%r' % (mode, tok), 'the documented value %r is parsed as %r in %s mode' % (tok, res, mode)))
+        # a word is never parsed as the opposite boolean
+        elif tok.lower() in ('true', 'false') and res in (True, False) and res is not (tok.lower() == 'true'):
+            problems.append(('%s:%r' % (mode, tok), 'the value %r is parsed as %r in %s mode' % (tok, res, mode)))
+        # something that is no boolean word at all is rejected
+        elif tok in ('', 'maybe', '2') and res != 'ValueError':
+            problems.append(('%s:%r' % (mode, tok), 'the value %r, which is no spelling of a boolean, is parsed as %r in %s mode instead of being rejected' % (tok, res, mode)))
+        # strict mode knows the exact spellings only (docstring of parse_directive_value: 'true' -> ValueError)
+        elif not relaxed and tok not in ('True', 'False') and res != 'ValueError':
+            problems.append(('strict:%r' % tok, 'strict mode (header comments, cythonize) accepts %r as %r; only True / False are documented there, the docstring shows \'true\' being rejected' % (tok, res)))
+        # relaxed mode extends strict mode
+        elif relaxed and tab.get((tok, False)) in (True, False) and res is not tab[(tok, False)]:
+            problems.append(('relaxed:%r' % tok, 'relaxed mode parses %r as %r but strict mode as %r' % (tok, res, tab[(tok, False)])))
+    # an accepted word and the opposite polarity: words accepted together with 'true' mean True (same test), nothing to add;
+    # but a word accepted in relaxed mode must be accepted in each letter case (the parser lower-cases) - different cases of one word agree
+    by_word = {}
+    for (tok, relaxed), res in tab.items():
+        if relaxed and tok and tok.isalpha():
+            by_word.setdefault(tok.lower(), set()).add(res if not isinstance(res, str) else res)
+    for w, results in sorted(by_word.items()):
+        if len(results) > 1 and w not in ('true', 'false'):
+            problems.append(('relaxed:case:%s' % w, 'relaxed mode treats the letter cases of %r differently (%s)' % (w, sorted(map(str, results)))))
+    return problems
+
+
+_BOOL_BAD = ("def parse_directive_value(name, value, relaxed_bool=False):\n    type = directive_types.get(name)\n    if type is bool:\n        value = str(value)\n        if value:\n            return True\n"
+             "        raise ValueError('bad')\n")
+
+
+def rule_BOOLTAB(ctx, floor=25):
+    r = Rule('C41-BOOLTAB', 'the boolean branch of Options.parse_directive_value parses True / False (and, in relaxed mode, the words it knows) to the boolean they spell and rejects '
+                            'everything else with ValueError: decision table over the partition of strings its comparisons induce x relaxed_bool', floor)
+    ix = ctx.index
+    m = ix.mod('Options')
+    fn = m.functions.get('parse_directive_value')
+    if fn is None:
+        raise AnalysisError('Options.parse_directive_value vanished')
+    tab = bool_table(ix, m, fn)
+    for (tok, relaxed), res in sorted(tab.items()):
+        r.inst('parse_directive_value:bool:%s:%r' % ('relaxed' if relaxed else 'strict', tok), sample='%r relaxed=%s -> %s' % (tok, relaxed, res))
+    seen = set()
+    for key, msg in booltab_problems(tab):
+        if key in seen:
+            continue
+        seen.add(key)
+        r.violate('Options.parse_directive_value:bool:%s' % key, OPT, fn.lineno, 'Options.parse_directive_value (boolean directive): ' + msg)
+    bad = bool_table(ix, m, ast.parse(_BOOL_BAD).body[0])
+    r.positive_control(any(k.endswith("'False'") for k, _ in booltab_problems(bad)) and any("'maybe'" in k for k, _ in booltab_problems(bad)), 'truthiness test instead of the comparison with the spelling')
+    return r
+
+
+# ------------------------------------------------------------------------------------------------ C41-SCOPE
+SCOPE_VOCABULARY = ('module', 'function', 'class', 'cclass', 'cppclass', 'with statement')
+
+
+def scope_table(ix, cls, fn, scopes_table):
+    """-> [(directive, scope, returned value, errors reported)]"""
+    out = []
+    names = sorted(scopes_table) + ['boundscheck']
+    for d in names:
+        for sc in SCOPE_VOCABULARY:
+            reported = []
+            ctxobj = Obj('context', flag_default=False, nonfatal_error=lambda e: reported.append(e))
+            selfobj = Obj('InterpretCompilerDirectives', cls=cls, flag_default=False, context=ctxobj)
+            ev = DirEval(ix, overrides={('Options', 'directive_types'): {k: True for k in names}, ('Errors', 'error'): (lambda pos, msg: reported.append(msg))})
+            try:
+                res = ev.call(Method(RepoFn(cls.module, fn, cls), selfobj), [Obj('pos'), d, sc])
+            except (Unsupported, Raised) as e:
+                raise AnalysisError('check_directive_scope cannot be evaluated for (%s, %s): %s' % (d, sc, e))
+            out.append((d, sc, res, len(reported)))
+    return out
+
+
+def rule_SCOPE(ctx, floor=300):
+    r = Rule('C41-SCOPE', 'InterpretCompilerDirectives.check_directive_scope accepts a directive exactly in the scopes Options.directive_scopes lists for it (everywhere if it is not listed) '
+                          'and reports an error when it answers no: decision table over the table x the scope vocabulary', floor)
+    ix = ctx.index
+    cls = ix.cls('ParseTreeTransforms', 'InterpretCompilerDirectives')
+    fn = cls.methods.get('check_directive_scope') if cls else None
+    if fn is None:
+        raise AnalysisError('InterpretCompilerDirectives.check_directive_scope vanished')
+    sc = tables.module_assign(ctx.parse(OPT), 'directive_scopes')
+    table = tables.literal(sc) if sc is not None else None
+    if not isinstance(table, dict) or len(table) < 30:
+        raise AnalysisError('Options.directive_scopes is not a literal dict')
+    bad = {}
+    for d, s, res, n_err in scope_table(ix, cls, fn, table):
+        legal = table.get(d)
+        want = True if not legal else (s in legal)
+        r.inst('check_directive_scope:%s@%s' % (d, s), sample='%s in %s -> %r' % (d, s, res), nontrivial=bool(legal))
+        if bool(res) != want:
+            bad.setdefault('accepts' if res else 'rejects', []).append((d, s))
+        elif not want and not n_err:
+            bad.setdefault('silent', []).append((d, s))
+    for kind, rows in sorted(bad.items()):
+        d, s = rows[0]
+        msg = {'accepts': 'answers True for %d (directive, scope) pairs the table forbids, e.g. %r in %s scope: the directive takes effect outside the scope it is defined for',
+               'rejects': 'answers False for %d (directive, scope) pairs the table allows, e.g. %r in %s scope: a correctly placed directive is dropped',
+               'silent': 'answers False for %d pairs without reporting an error, e.g. %r in %s scope: the directive is silently ignored'}[kind] % (len(rows), d, s)
+        r.violate('InterpretCompilerDirectives.check_directive_scope:%s' % kind, PTT, fn.lineno, 'check_directive_scope ' + msg)
+    return r
+
+
+# ------------------------------------------------------------------------------------------------ C41-CONTENTS
+def contents_findings(cls):
+    """-> [(key, line, problem or None, sample)]"""
+    out = []
+    ex = cls.methods.get('_extract_directives')
+    vw = cls.methods.get('visit_with_directives')
+    if ex is None or vw is None:
+        raise AnalysisError('InterpretCompilerDirectives._extract_directives / visit_with_directives vanished')
+    # (a) the mapping returned second by _extract_directives only receives non-immediate names
+    second = set()
+    for n in _wnn(ex):
+        if isinstance(n, ast.Return) and isinstance(n.value, ast.Tuple) and len(n.value.elts) == 2 and isinstance(n.value.elts[1], ast.Name):
+            second.add(n.value.elts[1].id)
+    if len(second) != 1:
+        raise AnalysisError('_extract_directives does not return (directives, contents directives) as two names')
+    cname = second.pop()
+    stores = [n for n in _wnn(ex) if isinstance(n, ast.Assign) and any(isinstance(t, ast.Subscript) and isinstance(t.value, ast.Name) and t.value.id == cname for t in n.targets)]
+    if not stores:
+        raise AnalysisError('_extract_directives never stores into %s' % cname)
+    states = reaching_states(ex, stores)
+    for i, st in enumerate(stores):
+        key_expr = [t.slice for t in st.targets if isinstance(t, ast.Subscript)][0]
+        ktext = _u(key_expr)
+        ok_all = True
+        for state in states[id(st)]:
+            ok = False
+            for text, truth in path_facts(state):
+                try:
+                    e = ast.parse(text, mode='eval').body
+                except SyntaxError:
+                    continue
+                if isinstance(e, ast.Compare) and len(e.ops) == 1 and _u(e.left) == ktext and 'immediate_decorator_directives' in _u(e.comparators[0]):
+                    if (isinstance(e.ops[0], ast.NotIn) and truth) or (isinstance(e.ops[0], ast.In) and not truth):
+                        ok = True
+            ok_all = ok_all and ok
+        key = '_extract_directives:%s[%s]' % (cname, ktext) + ('' if i == 0 else '#%d' % (i + 1))
+        out.append((key, st.lineno, None if ok_all and states[id(st)] else
+                    'stores the directive into the mapping for the *contents* of the decorated object on a path that does not exclude Options.immediate_decorator_directives: '
+                    'cfunc / ccall / final / exceptval / returns ... then also apply to the functions nested inside', _u(st)))
+    # (b) visit_with_directives: the node wrapped around the body carries the mapping built from the contents parameter
+    params = [a.arg for a in vw.args.args]
+    if len(params) < 4:
+        raise AnalysisError('visit_with_directives(self, node, directives, contents_directives) changed its signature')
+    p_dir, p_cont = params[2], params[3]
+    built = {}
+    for n in _wnn(vw):
+        if isinstance(n, ast.Assign) and len(n.targets) == 1 and isinstance(n.targets[0], ast.Name) and isinstance(n.value, ast.Call):
+            stars = [k.value.id for k in n.value.keywords if k.arg is None and isinstance(k.value, ast.Name)]
+            for s in stars:
+                built.setdefault(n.targets[0].id, set()).add(s)
+    wrappers = []
+    for n in _wnn(vw):
+        if isinstance(n, ast.Assign) and any(isinstance(t, ast.Attribute) and t.attr == 'body' for t in n.targets):
+            for c in ast.walk(n.value):
+                if isinstance(c, ast.Call) and (getattr(c.func, 'attr', None) or getattr(c.func, 'id', '')) == 'CompilerDirectivesNode':
+                    wrappers.append(c)
+    if not wrappers:
+        raise AnalysisError('visit_with_directives no longer wraps node.body in a CompilerDirectivesNode')
+    for c in wrappers:
+        kw = [k.value for k in c.keywords if k.arg == 'directives']
+        key = 'visit_with_directives:body wrapper'
+        if not kw or not isinstance(kw[0], ast.Name):
+            out.append((key, c.lineno, 'wraps the body without a plain `directives=<mapping>` argument (not decided)', _u(c)))
+            continue
+        src = built.get(kw[0].id, set())
+        if src == {p_cont}:
+            out.append((key, c.lineno, None, 'directives=%s built from **%s' % (kw[0].id, p_cont)))
+        else:
+            out.append((key, c.lineno, 'wraps the body of the decorated object in CompilerDirectivesNode(directives=%s), a mapping built from %s instead of **%s: the directives meant for the '
+                        'object only (cfunc, final, exceptval ...) are applied to everything inside it' % (kw[0].id, ('**' + ', **'.join(sorted(src))) if src else 'something else', p_cont), _u(c)))
+    return out
+
+
+def rule_CONTENTS(ctx, floor=2):
+    r = Rule('C41-CONTENTS', 'decorator directives that apply to the decorated object only (Options.immediate_decorator_directives) never reach the directive mapping of its contents: '
+                             'guarded store in _extract_directives, and the body wrapper of visit_with_directives carries the contents mapping', floor)
+    cls = ctx.index.cls('ParseTreeTransforms', 'InterpretCompilerDirectives')
+    if cls is None:
+        raise AnalysisError('InterpretCompilerDirectives vanished')
+    for key, line, problem, sample in contents_findings(cls):
+        k = 'InterpretCompilerDirectives.%s' % key
+        r.inst(k, sample='%s: %s' % (k, sample))
+        if problem and 'not decided' in problem:
+            r.info('%s: %s' % (k, problem))
+        elif problem:
+            r.violate(k, PTT, line, 'InterpretCompilerDirectives.%s %s' % (key.split(':')[0], problem))
+    return r
+
+
+# ------------------------------------------------------------------------------------------------ C41-INHERIT / C41-HEADER (ordered writes into the returned mapping)
+def _is_copy_of(e, name):
+    """dict(name) / name.copy() / copy.copy(name) / copy.deepcopy(name) / {**name} / dict(name.items())"""
+    if isinstance(e, ast.Call):
+        f = e.func
+        if isinstance(f, ast.Name) and f.id == 'dict' and len(e.args) == 1 and not e.keywords:
+            a = e.args[0]
+            return (isinstance(a, ast.Name) and a.id == name) or (isinstance(a, ast.Call) and isinstance(a.func, ast.Attribute) and a.func.attr == 'items' and _u(a.func.value) == name)
+        if isinstance(f, ast.Attribute) and f.attr == 'copy' and not e.args and _u(f.value) == name:
+            return True
+        if isinstance(f, ast.Attribute) and f.attr in ('copy', 'deepcopy') and len(e.args) == 1 and _u(e.args[0]) == name:
+            return True
+    if isinstance(e, ast.Dict) and e.keys == [None] and _u(e.values[0]) == name:
+        return True
+    return False
+
+
+def mapping_writes(fn, var):
+    """ordered writes into the local mapping `var`: [(line, kind 'init-copy'|'init-alias'|'init-other'|'override'|'weak', source name or None)]"""
+    out = []
+
+    def visit(stmts, loop_src):
+        for st in stmts:
+            if isinstance(st, ast.Assign) and any(isinstance(t, ast.Name) and t.id == var for t in st.targets):
+                v = st.value
+                if isinstance(v, ast.Name):
+                    out.append((st.lineno, 'init-alias', v.id))
+                elif isinstance(v, ast.Dict) and all(k is None for k in v.keys) and len(v.values) > 1 and all(isinstance(x, ast.Name) for x in v.values):
+                    out.append((st.lineno, 'init-copy', v.values[0].id))
+                    for x in v.values[1:]:
+                        out.append((st.lineno, 'override', x.id))
+                else:
+                    src = [n.id for n in ast.walk(v) if isinstance(n, ast.Name)]
+                    copied = [s for s in src if _is_copy_of(v, s)]
+                    out.append((st.lineno, 'init-copy' if copied else 'init-other', copied[0] if copied else (src[0] if src else None)))
+            elif isinstance(st, ast.Assign) and any(isinstance(t, ast.Subscript) and isinstance(t.value, ast.Name) and t.value.id == var for t in st.targets):
+                out.append((st.lineno, 'override', loop_src))
+            elif isinstance(st, ast.AugAssign) and isinstance(st.target, ast.Name) and st.target.id == var and isinstance(st.op, ast.BitOr):
+                out.append((st.lineno, 'override', _u(st.value)))
+            elif isinstance(st, ast.Expr) and isinstance(st.value, ast.Call) and isinstance(st.value.func, ast.Attribute) and isinstance(st.value.func.value, ast.Name) \
+                    and st.value.func.value.id == var:
+                c = st.value
+                if c.func.attr == 'update' and c.args:
+                    out.append((st.lineno, 'override', _u(c.args[0])))
+                elif c.func.attr == 'update' and c.keywords:
+                    out.append((st.lineno, 'override', ','.join(_u(k.value) for k in c.keywords if k.arg is None)))
+                elif c.func.attr == 'setdefault':
+                    out.append((st.lineno, 'weak', loop_src))
+            elif isinstance(st, (ast.For, ast.AsyncFor)):
+                names = [n.id for n in ast.walk(st.iter) if isinstance(n, ast.Name)]
+                visit(st.body, names[0] if names else loop_src)
+            elif isinstance(st, (ast.If, ast.While)):
+                visit(st.body, loop_src)
+                visit(st.orelse, loop_src)
+            elif isinstance(st, (ast.With, ast.Try)):
+                visit(st.body, loop_src)
+                for h in getattr(st, 'handlers', []) or []:
+                    visit(h.body, loop_src)
+                visit(getattr(st, 'orelse', []) or [], loop_src)
+                visit(getattr(st, 'finalbody', []) or [], loop_src)
+    visit(fn.body, None)
+    return out
+
+
+def inherit_findings(fn):
+    """-> [(key, line, problem or None, sample)] for a function (outer, **new) -> merged mapping"""
+    a = fn.args
+    if not a.args or a.kwarg is None:
+        raise AnalysisError('%s(outer_directives, **new_directives) changed its signature' % fn.name)
+    outer, new = a.args[0].arg, a.kwarg.arg
+    rets = [n.value for n in _wnn(fn) if isinstance(n, ast.Return) and n.value is not None]
+    if len(rets) != 1 or not isinstance(rets[0], ast.Name):
+        return [('result', fn.lineno, 'does not return one named mapping (not decided)', '')]
+    var = rets[0].id
+    w = mapping_writes(fn, var)
+    out = []
+    inits = [x for x in w if x[1].startswith('init')]
+    sample = '; '.join('%s from %s' % (k, s) for _, k, s in w)
+    if len(inits) != 1:
+        return [('result', fn.lineno, 'binds the returned mapping %d times (not decided)' % len(inits), sample)]
+    line, kind, src = inits[0]
+    # follow one level of local aliasing: merged = dict(new); merged.update(copy_of_outer)
+    if kind == 'init-copy' and src == outer:
+        out.append(('base', line, None, sample))
+    elif kind == 'init-alias' and src == outer:
+        out.append(('base', line, 'returns the mapping of the enclosing scope itself (`%s = %s`, no copy): the directives of a decorator / with-block are written into the enclosing scope '
+                    'and stay in force after the block' % (var, outer), sample))
+    else:
+        out.append(('base', line, 'starts the result from %s instead of a copy of the enclosing directives `%s`: %s' % (
+            src, outer, 'the enclosing scope then overrides the decorator / with-block' if src == new else 'inherited directives are lost'), sample))
+    over = [x for x in w if x[1] == 'override' and x[2] and new in x[2] and x[0] >= line]
+    late_outer = [x for x in w if x[1] == 'override' and x[2] and outer in x[2] and x[0] > line]
+    if late_outer:
+        out.append(('override', late_outer[0][0], 'writes the enclosing directives over the result after it was built: the enclosing scope wins over the decorator / with-block', sample))
+    elif over:
+        out.append(('override', over[0][0], None, sample))
+    elif not (kind == 'init-copy' and src == new):
+        out.append(('override', fn.lineno, 'never writes the new directives `%s` into the result: decorators and with-blocks have no effect' % new, sample))
+    return out
+
+
+def rule_INHERIT(ctx, floor=2):
+    r = Rule('C41-INHERIT', 'Options.copy_inherited_directives returns a private copy of the enclosing directives overridden by the new ones '
+                            '(a directive set by decorator or with-block applies inside and only inside)', floor)
+    m = ctx.index.mod('Options')
+    fn = m.functions.get('copy_inherited_directives')
+    if fn is None:
+        raise AnalysisError('Options.copy_inherited_directives vanished')
+    for key, line, problem, sample in inherit_findings(fn):
+        k = 'Options.copy_inherited_directives:%s' % key
+        r.inst(k, sample='%s: %s' % (k, sample))
+        if problem and 'not decided' in problem:
+            r.info('%s: %s' % (k, problem))
+        elif problem:
+            r.violate(k, OPT, line, 'Options.copy_inherited_directives ' + problem)
+    bad = inherit_findings(ast.parse("def f(outer, **new):\n    out = outer\n    out.update(new)\n    return out\n").body[0])
+    good = inherit_findings(ast.parse("def f(outer, **new):\n    out = {**outer}\n    for k, v in new.items():\n        out[k] = v\n    return out\n").body[0])
+    r.positive_control([k for k, _, p, _ in bad if p] == ['base'] and not any(p for _, _, p, _ in good), 'alias instead of a copy / dict-display and loop form of the correct merge')
+    return r
+
+
+def header_findings(fn):
+    """-> [(key, line, problem or None, sample)] for p_compiler_directive_comments"""
+    rets = [n.value for n in _wnn(fn) if isinstance(n, ast.Return) and n.value is not None]
+    if len(rets) != 1 or not isinstance(rets[0], ast.Name):
+        return [('result', fn.lineno, 'does not return one named mapping (not decided)', '')]
+    var = rets[0].id
+    parsed = []
+    for n in _wnn(fn):
+        if isinstance(n, ast.Assign) and len(n.targets) == 1 and isinstance(n.targets[0], ast.Name) and isinstance(n.value, ast.Call) \
+                and (getattr(n.value.func, 'attr', None) or getattr(n.value.func, 'id', '')) == 'parse_directive_list':
+            chained = any(k.arg == 'current_settings' and _u(k.value) == var for k in n.value.keywords)
+            parsed.append((n.targets[0].id, n.lineno, chained))
+    if not parsed:
+        raise AnalysisError('%s no longer calls Options.parse_directive_list' % fn.name)
+    w = mapping_writes(fn, var)
+    out = []
+    for pname, pline, chained in parsed:
+        sample = '; '.join('%s from %s' % (k, s) for _, k, s in w)
+        flows = [x for x in w if x[1] == 'override' and x[2] and pname in x[2] and x[0] > pline]
+        rebinds = [x for x in w if x[1].startswith('init') and x[2] == pname and x[0] > pline]
+        if pname == var and chained:
+            out.append(('parsed line -> %s' % var, pline, None, 'parse_directive_list(..., current_settings=%s)' % var))
+        elif flows:
+            out.append(('parsed line -> %s' % var, flows[0][0], None, sample))
+        elif rebinds and not chained:
+            out.append(('parsed line -> %s' % var, rebinds[0][0], 'rebinds the returned mapping to the directives of the current comment line (`%s = %s`): the lines before it are dropped'
+                        % (var, pname), sample))
+        elif rebinds:
+            out.append(('parsed line -> %s' % var, rebinds[0][0], None, sample))
+        else:
+            out.append(('parsed line -> %s' % var, pline, 'parses each `# cython:` comment into `%s` but never merges it into the mapping it returns (`%s`): the file header has no effect'
+                        % (pname, var), sample))
+    return out
+
+
+def rule_HEADER(ctx, floor=1):
+    r = Rule('C41-HEADER', 'every `# cython:` comment line parsed by p_compiler_directive_comments is merged (overriding) into the mapping the function returns', floor)
+    m = ctx.index.mod('Parsing')
+    fn = m.functions.get('p_compiler_directive_comments')
+    if fn is None:
+        raise AnalysisError('Parsing.p_compiler_directive_comments vanished')
+    for key, line, problem, sample in header_findings(fn):
+        k = 'Parsing.p_compiler_directive_comments:%s' % key
+        r.inst(k, sample='%s: %s' % (k, sample))
+        if problem and 'not decided' in problem:
+            r.info('%s: %s' % (k, problem))
+        elif problem:
+            r.violate(k, 'Cython/Compiler/Parsing.py', line, 'Parsing.p_compiler_directive_comments ' + problem)
+    bad = header_findings(ast.parse("def p(s):\n    result = {}\n    while s.sy == 'commentline':\n        new = Options.parse_directive_list(s.systring)\n        s.next()\n    return result\n").body[0])
+    good = header_findings(ast.parse("def p(s):\n    result = {}\n    while s.sy == 'commentline':\n        new = Options.parse_directive_list(s.systring)\n        for k in new:\n            result[k] = new[k]\n        s.next()\n    return result\n").body[0])
+    r.positive_control(all(p for _, _, p, _ in bad) and not any(p for _, _, p, _ in good), 'parsed line never merged / loop form of the merge')
+    return r
+
+
+# ------------------------------------------------------------------------------------------------ C41-DECORDER
+def decorder_findings(fn):
+    """-> (reversed iteration?, merge policy 'last-wins'|'first-wins'|None, line)"""
+    loop = None
+    for n in _wnn(fn):
+        if isinstance(n, (ast.For, ast.AsyncFor)) and any(isinstance(x, ast.Attribute) and x.attr == 'decorators' for x in ast.walk(n.iter)):
+            loop = n
+            break
+    if loop is None:
+        return None
+    it = loop.iter
+    rev = False
+    if isinstance(it, ast.Subscript) and isinstance(it.slice, ast.Slice) and it.slice.step is not None and _u(it.slice.step) == '-1' and it.slice.lower is None and it.slice.upper is None:
+        rev = True
+    elif isinstance(it, ast.Call) and isinstance(it.func, ast.Name) and it.func.id == 'reversed':
+        rev = True
+    elif not (isinstance(it, ast.Attribute) and it.attr == 'decorators'):
+        return ('unknown', None, loop.lineno)
+    # merge loop: for name, value in <list the first loop appended to>
+    appended = {n.value.func.value.id for n in ast.walk(loop) if isinstance(n, ast.Expr) and isinstance(n.value, ast.Call) and isinstance(n.value.func, ast.Attribute)
+                and n.value.func.attr == 'append' and isinstance(n.value.func.value, ast.Name)}
+    merge = None
+    for n in _wnn(fn):
+        if isinstance(n, (ast.For, ast.AsyncFor)) and n is not loop and isinstance(n.iter, ast.Name) and n.iter.id in appended and isinstance(n.target, ast.Tuple) and len(n.target.elts) == 2:
+            merge = n
+    if merge is None:
+        return (rev, None, loop.lineno)
+    kname, vname = _u(merge.target.elts[0]), _u(merge.target.elts[1])
+    stores = [s for s in ast.walk(merge) if isinstance(s, ast.Assign) and len(s.targets) == 1 and isinstance(s.targets[0], ast.Subscript) and _u(s.targets[0].slice) == kname and _u(s.value) == vname]
+    if not stores:
+        return (rev, None, loop.lineno)
+    states = reaching_states(fn, stores)
+    policy = 'first-wins'
+    for s in stores:
+        m = _u(s.targets[0].value)
+        for st in states[id(s)]:
+            facts = dict(path_facts(st))
+            if facts.get('%s in %s' % (kname, m)) is True or facts.get('%s not in %s' % (kname, m)) is False:
+                policy = 'last-wins'
+    return (rev, policy, loop.lineno)
+
+
+def rule_DECORDER(ctx, floor=1):
+    r = Rule('C41-DECORDER', 'of two decorators that set the same directive the one written first (outermost) wins: the iteration order over the decorator stack '
+                             'agrees with the merge policy of _extract_directives', floor)
+    cls = ctx.index.cls('ParseTreeTransforms', 'InterpretCompilerDirectives')
+    fn = cls.methods.get('_extract_directives') if cls else None
+    if fn is None:
+        raise AnalysisError('InterpretCompilerDirectives._extract_directives vanished')
+    res = decorder_findings(fn)
+    if res is None:
+        raise AnalysisError('_extract_directives no longer loops over node.decorators')
+    rev, policy, line = res
+    key = 'InterpretCompilerDirectives._extract_directives:decorator order'
+    r.inst(key, sample='%s: iteration %s, merge %s' % (key, 'bottom-up' if rev is True else 'top-down' if rev is False else rev, policy))
+    if rev == 'unknown' or policy is None:
+        r.info('%s: iteration / merge form not recognised' % key)
+    elif (rev and policy != 'last-wins') or (not rev and policy != 'first-wins'):
+        r.violate(key, PTT, line, '_extract_directives walks the decorators %s and merges repeated directives %s: of two decorators setting the same directive the one written LAST '
+                  '(innermost) takes precedence, Python applies the outermost decorator last, and the comment in the code promises "decorators coming first take precedence"'
+                  % ('bottom-up' if rev else 'top-down', policy))
+    pc = ast.parse("def _extract_directives(self, node):\n    directives = []\n    for dec in node.decorators:\n        directives.append(self.parse(dec))\n    optdict = {}\n"
+                   "    for name, value in directives:\n        if name in optdict:\n            optdict[name] = value\n        else:\n            optdict[name] = value\n    return optdict\n").body[0]
+    got = decorder_findings(pc)
+    r.positive_control(got is not None and got[0] is False and got[1] == 'last-wins', 'top-down iteration with last-wins merging')
+    return r
+
+
+# ------------------------------------------------------------------------------------------------ C41-CTX
+def ctx_unrestored(fn):
+    """attributes `<name>.<attr>` that a generator context manager saves, rebinds and does not put back after the yield: [(text, line)]"""
+    cands = {}
+    for n in _wnn(fn):
+        if isinstance(n, ast.Assign) and len(n.targets) == 1 and isinstance(n.targets[0], ast.Name) and isinstance(n.value, ast.Attribute) and isinstance(n.value.value, ast.Name):
+            cands[_u(n.value)] = n.targets[0].id
+    out = []
+    for attr_text, saved in sorted(cands.items()):
+        stores = [n for n in _wnn(fn) if isinstance(n, ast.Assign) and any(_u(t) == attr_text for t in n.targets)]
+        if not stores:
+            continue
+
+        def tr(n, state):
+            s = set(state)
+            if isinstance(n, ast.Assign):
+                for t in n.targets:
+                    if _u(t) == attr_text:
+                        if isinstance(n.value, ast.Name) and n.value.id == saved and 'SAVED' in s:
+                            s.discard('MOD')
+                        else:
+                            s.add('MOD')
+                    elif isinstance(t, ast.Name) and t.id == saved:
+                        if _u(n.value) == attr_text and 'MOD' not in s:
+                            s.add('SAVED')
+                        else:
+                            s.discard('SAVED')
+            elif isinstance(n, ast.Expr) and isinstance(n.value, (ast.Yield, ast.YieldFrom)):
+                s.add('YIELDED')
+            return frozenset(s)
+        try:
+            o = pyflow.Flow(tr).run(fn)
+        except pyflow.TooManyStates:
+            continue
+        if any('MOD' in st and 'YIELDED' in st for st in o.normal | o.returns):
+            out.append((attr_text, stores[0].lineno, True))
+        else:
+            out.append((attr_text, stores[0].lineno, False))
+    return out
+
+
+def rule_CTX(ctx, floor=2):
+    r = Rule('C41-CTX', 'a generator context manager that saves an attribute of its argument (obj.directives), rebinds it and yields puts the saved value back on every '
+                        'normal exit after the yield', floor)
+    ix = ctx.index
+    for m in sorted(ix.modules.values(), key=lambda mm: mm.rel):
+        if not m.rel.startswith('Cython/Compiler/'):
+            continue
+        for qn, owner, fn in ix.functions_of(m):
+            if not any((isinstance(d, ast.Name) and d.id.endswith('contextmanager')) or (isinstance(d, ast.Attribute) and d.attr.endswith('contextmanager')) for d in fn.decorator_list):
+                continue
+            for attr_text, line, bad in ctx_unrestored(fn):
+                key = '%s.%s:%s' % (m.short, qn, attr_text)
+                r.inst(key, sample='%s: %s' % (key, 'NOT restored' if bad else 'restored after the yield'), nontrivial=attr_text.endswith('directives'))
+                if bad:
+                    r.violate(key, m.rel, line, '%s.%s rebinds %s for the duration of the with-block but does not put the saved value back after the yield: the inner setting '
+                              '(e.g. the directives of a decorated function) stays in force for the code that follows' % (m.short, qn, attr_text))
+    pc = ast.parse("def apply(self, obj):\n    old = obj.directives\n    obj.directives = self.directives\n    yield\n").body[0]
+    ok = ast.parse("def apply(self, obj):\n    old = obj.directives\n    obj.directives = self.directives\n    try:\n        yield\n    finally:\n        obj.directives = old\n").body[0]
+    r.positive_control([b for _, _, b in ctx_unrestored(pc)] == [True] and [b for _, _, b in ctx_unrestored(ok)] == [False], 'context manager without the restore / try-finally form')
+    return r
+
+
+# ------------------------------------------------------------------------------------------------ C41-UNKNOWN
+def unknown_findings(fn, lenient_param, table_name='_directive_defaults'):
+    """raise statements of parse_directive_list in the branch for names that are not in the directive table: [(line, facts about the lenient flag: True/False/None)]"""
+    raises = [n for n in _wnn(fn) if isinstance(n, ast.Raise)]
+    if not raises:
+        return []
+    states = reaching_states(fn, raises)
+    out = []
+    for rz in raises:
+        for st in states[id(rz)]:
+            facts = dict(path_facts(st))
+            unknown_branch = any((t.endswith('not in %s' % table_name) and v is True) or (t.endswith(' in %s' % table_name) and ' not in ' not in t and v is False) for t, v in facts.items())
+            if not unknown_branch:
+                continue
+            out.append((rz.lineno, facts.get(lenient_param)))
+    return out
+
+
+def rule_UNKNOWN(ctx, floor=1):
+    r = Rule('C41-UNKNOWN', 'Options.parse_directive_list rejects a name that is no directive with an error, except when the caller asked for leniency (the flag the header-comment '
+                            'parser passes): path condition of the raise in the unknown-name branch', floor)
+    ix = ctx.index
+    m = ix.mod('Options')
+    fn = m.functions.get('parse_directive_list')
+    hdr = ix.mod('Parsing').functions.get('p_compiler_directive_comments')
+    if fn is None or hdr is None:
+        raise AnalysisError('Options.parse_directive_list / Parsing.p_compiler_directive_comments vanished')
+    params = [a.arg for a in fn.args.args]
+    lenient = None
+    for n in _wnn(hdr):
+        if isinstance(n, ast.Call) and (getattr(n.func, 'attr', None) or getattr(n.func, 'id', '')) == 'parse_directive_list':
+            for k in n.keywords:
+                if k.arg in params and isinstance(k.value, ast.Constant) and k.value.value is True and 'bool' not in k.arg:
+                    lenient = k.arg
+    if lenient is None:
+        r.inst('parse_directive_list:no-lenient-caller', sample='the header parser passes no leniency flag')
+        res = unknown_findings(fn, '<none>')
+        if not res:
+            r.violate('Options.parse_directive_list:unknown-name', OPT, fn.lineno, 'parse_directive_list has no raise for names that are not directives: unknown options are silently accepted')
+        return r
+    res = unknown_findings(fn, lenient)
+    key = 'Options.parse_directive_list:unknown-name'
+    r.inst(key, sample='%s: raise under %s=%s' % (key, lenient, sorted({str(v) for _, v in res})))
+    if not res:
+        r.violate(key, OPT, fn.lineno, 'parse_directive_list never raises for a name that is not in the directive table: `-X nosuchoption=1` / cythonize(compiler_directives=...) typos are silently accepted')
+    elif not any(v is False for _, v in res):
+        r.violate(key, OPT, res[0][0], 'parse_directive_list raises for an unknown name only when %s is set (or regardless of it): the command line accepts unknown options silently and/or a '
+                  '`# cython:` header with a directive of a newer Cython version, which must be ignored, aborts the compilation' % lenient)
+    elif any(v is not False for _, v in res):
+        r.violate(key, OPT, [l for l, v in res if v is not False][0], 'parse_directive_list can raise for an unknown name although the caller passed %s=True (header comments): '
+                  'a header written for a newer Cython version aborts the compilation' % lenient)
+    return r
